@@ -11,8 +11,15 @@ oracle evaluates the property on what the implementation itself printed:
        byte count claims, and lies below the producer's commit position (chunkOk).
   C15  `ring finish` (fair round-robin to quiescence, then Close, then later calls):
        at quiescence only legitimate waiters (parked, ring open, have < need <= size = quiescentOk);
-       after Close nobody is left, no mutex stays locked, later calls returned (closedOk);
-       a call or step that never returns (`hang`) is a violation.
+       after Close nobody is left, no mutex stays locked, later calls returned (closedOk), a later
+       Write with end-of-stream; a call or step that never returns (`hang`) is a violation.
+       On every step / call line (Spec.Ring.eofOk, doomed, doomedRetOk; the spec line carries `need=` of the
+       stepping thread's consumer wait and `doomed=` of the producer, both from the state BEFORE the line):
+       a consumer that arrives at an end-of-stream exit (marks 76 / 85 / 95: the statement after them is
+       `Unlock; return io.EOF`) has decided for end-of-stream - then the ring must be closed and fewer bytes
+       buffered than the call waits for, in that very state; a consumer call returns end-of-stream only from
+       a closed ring; a producer call that was parked, or not yet begun, when the ring was seen closed does not
+       return success ("Close makes every blocked or later call return with end-of-stream", finding F9).
 """
 import re
 from .props import XLATE_TRUSTED, Prop, Run, register, COMMON_TRUSTED, eq_lines
@@ -42,7 +49,53 @@ PASSIVE = ('reset', 'thread', 'dead', 'bad-op', 'dup', 'busy', 'nothread')
 
 def _size(spec):
     w = spec.split()
-    return int(w[1]) if len(w) == 2 and w[0] == 'inv' else 16384
+    return int(w[1]) if len(w) >= 2 and w[0] == 'inv' else 16384
+
+
+def _specfield(spec, key):
+    for w in spec.split()[2:]:
+        if w.startswith(key + '='):
+            return w[len(key) + 1:]
+    return None
+
+
+EOF_EXITS = ('76', '85', '95')     # marks before `Unlock; return io.EOF` inside Read / ReadPeek / ReadWait
+PRODUCER_CALLS = ('write', 'wwait', 'wcommit')
+CONSUMER_WAITS = ('read', 'peek', 'rwait')
+
+
+def _thread_index(name):
+    if name == 'P':
+        return 0
+    if name == 'C':
+        return 1
+    if name.startswith('K') and name[1:].isdigit():
+        return 2 + int(name[1:])
+    return None
+
+
+def c15_step_ok(op, impl, spec):
+    """Spec.Ring.eofOk / doomedRetOk on one step or call line"""
+    m = _state.search(impl)
+    if not m:
+        return True
+    p, c, done = int(m.group(1)), int(m.group(2)), m.group(4) == '1'
+    w = op.split()
+    need = _specfield(spec, 'need')
+    doomed = _specfield(spec, 'doomed') == '1'
+    idx = _thread_index(w[2]) if len(w) > 2 else None
+    pos = m.group(7).split(',')
+    if need not in (None, '-') and idx is not None and idx < len(pos) and pos[idx] in EOF_EXITS:
+        if not (done and p - c < int(need)):
+            return False
+    r = _ret.search(impl)
+    if r:
+        name, err = r.group(1), r.group(3)
+        if name in CONSUMER_WAITS and err == 'eof' and not done:
+            return False
+        if name in PRODUCER_CALLS and err == 'ok' and doomed:
+            return False
+    return True
 
 
 def c14_oracle(op, impl, spec):
@@ -75,8 +128,7 @@ def c15_oracle(op, impl, spec):
         # un-hooked sequential call that did not return: legitimate only if it waits for bytes / space
         # nobody has committed, on an open ring (quiescentOk)
         m = re.match(r'hang \w+:(\d+):(\d+)@d([01])$', impl)
-        sw = spec.split()
-        size = int(sw[1]) if len(sw) == 2 and sw[0] == 'inv' else 16384
+        size = _size(spec)
         return bool(m) and m.group(3) == '0' and int(m.group(2)) < int(m.group(1)) <= size
     if impl == 'hang' or impl == 'pipe hang' or impl.startswith('skipped'):
         return False
@@ -99,10 +151,10 @@ def c15_oracle(op, impl, spec):
         s = _state.search(impl)
         if not s or s.group(5) != '0' or s.group(6) != '0':
             return False
-        if lw not in ('eof', 'ok', '-') or lr not in ('eof', 'ok', '-'):
+        if lw not in ('eof', '-') or lr not in ('eof', 'ok', '-'):
             return False
         return True
-    return _state.search(impl) is not None
+    return _state.search(impl) is not None and c15_step_ok(op, impl, spec)
 
 
 def ring_nontrivial(op, out):
